@@ -783,6 +783,11 @@ def barrier_src(ctx: Ctx) -> None:
                     ok = True
                 if isinstance(t, ast.Compare) and isinstance(t.ops[0], (ast.In, ast.NotIn)) and isinstance(t.left, ast.Constant) and t.left.value == "pipeline" and (isinstance(t.ops[0], ast.NotIn) == pol):
                     ok = True
+                # `if <node>.get("computed", <falsy>): return True` — the flag spelled as a branch
+                if pol and isinstance(t, ast.Call) and isinstance(t.func, ast.Attribute) and t.func.attr == "get" and t.args and isinstance(t.args[0], ast.Constant) and t.args[0].value == "computed":
+                    dv = t.args[1] if len(t.args) > 1 else ast.Constant(None)
+                    if isinstance(dv, ast.Constant) and not dv.value:
+                        ok = True
         elif isinstance(v, ast.Call) and isinstance(v.func, ast.Attribute) and v.func.attr == "get" and v.args and isinstance(v.args[0], ast.Constant) and v.args[0].value == "computed":
             dv = v.args[1] if len(v.args) > 1 else ast.Constant(None)
             ok = isinstance(dv, ast.Constant) and not dv.value
